@@ -61,6 +61,7 @@ type Step struct {
 	Inc   int      `json:"inc,omitempty"`
 	Kind  string   `json:"kind,omitempty"`
 	Crash string   `json:"crash,omitempty"` // "" | "plain" | "internal"
+	Again bool     `json:"again,omitempty"` // spawn of an id that was spawned before
 	Gates []Gate   `json:"gates"`           // gates pending once the step has settled
 	Done  []string `json:"done"`            // tokens done once the step has settled
 	Spret []string `json:"spret"`           // Spawn calls that have returned
@@ -120,7 +121,10 @@ type Result struct {
 	Overlap    bool               `json:"overlap"`
 	Pending    []Gate             `json:"pending"`
 	Quiet      bool               `json:"quiet"`
-	Witness    bool               `json:"witness"` // an unrelated actor still answers after the scenario
+	Witness    bool               `json:"witness"`   // an unrelated actor still answers after the scenario
+	DupSpawns  int                `json:"dupspawns"` // Spawn calls issued for an id that was registered at that moment
+	Respawns   int                `json:"respawns"`  // Spawn calls issued for an id that had been spawned before and was free again
+	Producers  map[string]int     `json:"producers"` // Producer invocations per actor
 }
 
 // ------------------------------------------------------------------ harness
@@ -566,12 +570,32 @@ func runScenario(cfg Config, sc Scenario) *Result {
 		switch st.Op {
 		case "spawn":
 			name := st.A
+			if st.Again {
+				if h.registered(name) {
+					res.DupSpawns++
+				} else {
+					res.Respawns++
+				}
+			}
+			dup := st.Again && h.registered(name)
+			returned := make(chan struct{})
 			go func() {
 				e.Spawn(h.producer(name), "a", h.opts(name)...)
-				spmu.Lock()
-				spret[name] = true
-				spmu.Unlock()
+				if !dup { // a duplicate spawn returns at once and says nothing about the first one
+					spmu.Lock()
+					spret[name] = true
+					spmu.Unlock()
+				}
+				close(returned)
 			}()
+			if dup {
+				// the call has to be over before the next operation is issued (it returns at once unless the
+				// code wrongly starts a second actor, in which case its Initialized delivery shows up as a gate)
+				select {
+				case <-returned:
+				case <-time.After(20 * time.Millisecond):
+				}
+			}
 		case "send":
 			res.Sent[st.A] = append(res.Sent[st.A], st.ID)
 			e.Send(h.pids[st.A], userMsg{st.ID})
@@ -699,6 +723,12 @@ func runScenario(cfg Config, sc Scenario) *Result {
 		res.Reg[n] = h.registered(n)
 	}
 	res.Spret = spretList()
+	res.Producers = map[string]int{}
+	h.mu.Lock()
+	for n := range cfg.Actors {
+		res.Producers[n] = h.incs[n]
+	}
+	h.mu.Unlock()
 	// release whatever is still parked so goroutines do not pile up
 	h.over.Store(true)
 	for _, a := range pending {
